@@ -1,6 +1,7 @@
 """C14 — systems and groups select base units and members exactly as declared."""
 from __future__ import annotations
 
+import logging
 from fractions import Fraction
 
 from . import regs
@@ -71,6 +72,38 @@ class Check(Property):
                 continue
             self.bump("system attribute")
             out.append({"kind": "attr", "s": sname, "item": item, "ops": [{"op": "gs", "f": "attr", "s": sname, "item": item}]})
+        # systems defined by the user: both rule forms, new units that are powers or compounds of root units
+        SHORT = {"liter": "meter", "hertz": "second", "are": "meter", "inch": "meter", "pound": "gram", "hour": "second",
+                 "kilometer": "meter", "milligram": "gram"}
+        LONG = [("g_0", "meter"), ("newton", "gram"), ("speed_of_light", "meter"), ("joule", "gram"), ("watt", "second"),
+                ("knot", "meter"), ("pascal", "gram"), ("standard_gravity", "second"), ("poise", "second"), ("dyne", "meter")]
+        for i in range(30 if self.tier == "quick" else 500):
+            rules, olds = [], set()
+            for _ in range(rng.randint(1, 3)):
+                if rng.random() < 0.45:
+                    new = rng.choice(sorted(SHORT))
+                    old, written = SHORT[new], None
+                else:
+                    new, old = rng.choice(LONG)
+                    written = old
+                if old in olds or any(new == r_[0] for r_ in rules):
+                    continue
+                olds.add(old)
+                rules.append([new, written])
+            # rules are applied in one pass: a rule whose new unit involves a root unit that another rule replaces has no
+            # defined meaning (the rules would depend on each other) — such rules are dropped
+            def others(new, old):
+                return set(P.proj.root({new: Fraction(1)})[1]) - {old}
+            rules = [[n_, w_] for n_, w_ in rules if w_ is None or not (others(n_, w_) & olds)]
+            if not rules:
+                continue
+            name = f"NS{i}"
+            probes = rng.sample(["meter", "second", "gram", "joule", "newton", "kilometer", "hour", "liter", "pascal", "watt", "mile",
+                                 "pound", "hertz", "knot"], 5)
+            ops = [{"op": "reset"}, {"op": "gs", "f": "add_system", "sys": {"name": name, "using": ["international"], "rules": rules}}]
+            ops += [{"op": "gs", "f": "base", "u": [[n, "1/1"]], "system": name} for n in probes] + [{"op": "reset"}]
+            self.bump("user-defined system")
+            out.append({"kind": "newsys", "name": name, "rules": rules, "probes": probes, "ops": ops})
         # edit sequences
         for i in range(25 if self.tier == "quick" else 400):
             steps = []
@@ -161,6 +194,19 @@ class Check(Property):
                 names = list(un._units)
                 return names[0] if len(names) == 1 else str(un)
             return [capture(run)]
+        if k == "newsys":
+            r = regs.fresh("fraction")
+            lines = [f"@system {c['name']} using international"] + [f"    {n}:{o}" if o else f"    {n}" for n, o in c["rules"]] + ["@end"]
+            outs = [{"ok": None}, capture(lambda: r.define("\n".join(lines)))]
+            for n in c["probes"]:
+                def gb(n=n):
+                    f, b = r.get_base_units(r.UnitsContainer({n: 1}), system=c["name"])
+                    if isinstance(f, float):
+                        return {"float": f, "units": sorted([kk, float(v)] for kk, v in b._units.items())}
+                    return [frac_s(Fraction(f)), sorted([kk, frac_s(regs.to_frac(v))] for kk, v in b._units.items())]
+                outs.append(capture(gb))
+            outs.append({"ok": None})
+            return outs
         # edit sequence on a fresh registry
         r = regs.fresh("fraction")
         outs = [{"ok": None}]
@@ -217,6 +263,8 @@ class Check(Property):
         v = []
         u = regs.ureg("fraction")
         k = c["kind"]
+        if k == "newsys":
+            return self.oracle_newsys(c)
         if k == "base":
             sysdef = next(s for s in proj.systems if s["name"] == c["system"])
             declared = {r[0] for r in sysdef["rules"]}
@@ -324,6 +372,58 @@ class Check(Property):
                 v.append(f"C14 ureg.sys.{c['s']}.{c['item']} is {got}, the system's variant / plain unit is {want}")
         elif k == "seq":
             v += self.oracle_seq(c)
+        return v
+
+    def oracle_newsys(self, c):
+        """a user-defined system: every unit is expressed in the declared base units and the unreplaced root units only, with
+        the same dimensionality and the same physical value (judged through the independent reader's root units)"""
+        import math
+        P = regs.pools()
+        proj = P.proj
+        v = []
+        r = regs.fresh("float")
+        lines = [f"@system {c['name']} using international"] + [f"    {n}:{o}" if o else f"    {n}" for n, o in c["rules"]] + ["@end"]
+        tag0 = f"C14 system {c['name']} with rules {c['rules']}"
+        logging.disable(logging.CRITICAL)
+        try:
+            try:
+                r.define("\n".join(lines))
+            except Exception as exc:  # noqa: BLE001
+                return [f"{tag0}: definition raised {type(exc).__name__}: {exc}"]
+            declared = {n for n, _ in c["rules"]}
+            replaced = set()
+            for n, o in c["rules"]:
+                replaced.add(o if o else next(iter(proj.root({n: Fraction(1)})[1])))
+            for n in c["probes"]:
+                tag = f"{tag0}: base units of {n}"
+                try:
+                    f, b = r.get_base_units(n, system=c["name"])
+                except Exception as exc:  # noqa: BLE001
+                    v.append(f"{tag}: raised {type(exc).__name__}: {exc}")
+                    continue
+                names = {k_: float(e) for k_, e in b._units.items()}
+                fa, ra = proj.root({n: Fraction(1)})
+                roots = set(ra)
+                for n_, _ in c["rules"]:
+                    roots |= set(proj.root({n_: Fraction(1)})[1])       # a rule new:old brings in the other root units of `new`
+                extra = set(names) - declared - (roots - replaced)
+                if extra:
+                    v.append(f"{tag}: {dict(names)} uses {sorted(extra)}, neither declared base units nor unreplaced root units")
+                # root expansion of the answer by the independent reader (float exponents)
+                tot, fac = {}, float(f)
+                for k_, e in names.items():
+                    fk, rk = proj.root({k_: Fraction(1)})
+                    fac *= (fk.approx if isinstance(fk, regs.D.Irr) else float(fk)) ** e
+                    for kk, ee in rk.items():
+                        tot[kk] = tot.get(kk, 0.0) + float(ee) * e
+                tot = {kk: ee for kk, ee in tot.items() if abs(ee) > 1e-9}
+                want = {kk: float(ee) for kk, ee in ra.items()}
+                if set(tot) != set(want) or any(abs(tot[kk] - want[kk]) > 1e-9 for kk in want):
+                    v.append(f"{tag}: {f} {dict(names)} expands to the root units {tot}, {n} is {want}")
+                elif not math.isclose(fac, fa.approx if isinstance(fa, regs.D.Irr) else float(fa), rel_tol=1e-9):
+                    v.append(f"{tag}: {f} {dict(names)} is {fac} in root units, {n} is {float(fa)}")
+        finally:
+            logging.disable(logging.NOTSET)
         return v
 
     def oracle_seq(self, c):
